@@ -112,6 +112,7 @@ def recomposed_task(task):
 
             def once(rng):
                 clear_proposal_dist_caches()
+                kernelx.cold_array_caches()
                 tree, _ = gen.build_tree(f, data)
                 pg_cfg = dict(cfg, move="pg")
                 # the kernel exactly as the configured wiring builds it
